@@ -34,6 +34,19 @@ register("C13",
          "TLA+ model (Merge.tla) + TLC state-graph dump replayed into the implementation (spec->code), TLC trace validation of "
          "recorded histories (code->spec)", "DESIGN.md §4 C13")
 
+register("C12",
+         "Msm.tla models the window generator as a loop (one action per generator step) with a loop invariant tying the "
+         "accumulated counts to the declarative lag-tau count definition; TLC checks it and the result properties (rows, "
+         "unit interval, detailed balance, reversal invariance) on ALL trajectories up to length 5 (quick) / 6 (model) over 3 "
+         "cells + NaN, all lags, both modes. The same domain (cardinality cross-checked with TLC's initial-state count) is "
+         "run through the real MSM class and every returned matrix is validated entry by entry by TLC against the "
+         "declarative definition (exact rational comparison via the common denominator 27720), plus random long "
+         "trajectories with NaN runs and tau passed as int/float/str.",
+         "Bounded exhaustive domain plus random sampling for long trajectories; float normalisation compared exactly on the "
+         "1/27720 lattice and within 1e-6 otherwise.",
+         "TLA+ model (Msm.tla) checked by TLC + TLC trace validation of every implementation result (code->spec)",
+         "DESIGN.md §4 C12")
+
 ALL = [f"C{i:02d}" for i in range(1, 21)]
 
 
